@@ -102,6 +102,17 @@ class Link(base.BaseObject):
         self._vertices.append(new)
         if (new is not None) and (self not in new.links):
             new.add_to_link(self)
+        self._invalidate_neighbor_caches()
+
+    def _invalidate_neighbor_caches(self, *also):
+        """
+        Drop the cached neighbors of every vertex this link touches (or just
+        stopped touching); their neighbors are found through this link.
+        """
+        for vert in (*self._vertices, *also):
+            if vert is not None:
+                # pylint: disable-next=protected-access
+                vert._qa_neighbors_invalidate()
 
     def unlink_from(self, kill: Vertex):
         """
@@ -121,3 +132,5 @@ class Link(base.BaseObject):
                 while kill in self._vertices:
                     self._vertices.remove(kill)
                 kill.remove_from_link(self)
+
+            self._invalidate_neighbor_caches(kill)
